@@ -49,15 +49,24 @@ def ev(e, frames):
         raise CE("undefined " + e[1])
     a = ev(e[1], frames)
     b = ev(e[2], frames)
-    if t == "+" and (isinstance(a, str) or isinstance(b, str)):
-        return pystr(a) + pystr(b)
-    if isinstance(a, str) or isinstance(b, str):
-        if t in ("==", "!="):
-            return OPS[t](a, b)
-        raise CE("mismatch")
-    if t in ("+", "-", "*") and (type(a) is bool):
-        if t != "+":
+    sa, sb = isinstance(a, str), isinstance(b, str)
+    if t == "+":
+        if sa or sb:
+            return pystr(a) + pystr(b)
+        return a + b
+    if t in ("==", "!="):
+        return OPS[t](a, b)
+    if t in ("<", ">", "<=", ">="):
+        if sa != sb:
             raise CE("mismatch")
+        return OPS[t](a, b)
+    # "-" and "*": the left operand must be a number (not a boolean, not a string)
+    if sa or type(a) is bool:
+        raise CE("mismatch")
+    if sb:
+        if t == "*":
+            return b * a          # repetition
+        raise CE("mismatch")
     return OPS[t](a, b)
 
 
@@ -140,11 +149,15 @@ class Ref:
             assign(frames, s[1], v)
         elif t == "if":
             arms, els = s[1], s[2]
-            vals = [ev(c, frames) for c, _ in arms]          # every condition is evaluated, in order
-            for (c, body), v in zip(arms, vals):
-                if v:
-                    return self.block(body, frames)
-            if els is not None:
+            taken = False
+            for (c, body) in arms:
+                v = ev(c, frames)          # every condition reached is evaluated, also after an arm was taken
+                if v and not taken:
+                    taken = True
+                    sig = self.block(body, frames)
+                    if sig != "normal":
+                        return sig         # the rest of the chain is never reached
+            if els is not None and not taken:
                 return self.block(els, frames)
         elif t == "repeat":
             _, ctr, ne, body = s
@@ -323,8 +336,11 @@ class RefGen:
     def cond(self):
         r = self.rng
         x = r.random()
-        if x < 0.35:
+        if x < 0.3:
             return ("b", r.random() < 0.5)
+        if x < 0.45:
+            # truthiness of non-boolean values: 0, other numbers, "" and non-empty strings
+            return r.choice([0, 0, 1, 2, ("s", ""), ("s", "x"), ("-", 2, 2), ("*", 0, 3), self.num(1)])
         return (r.choice(["<", ">", "<=", ">=", "==", "!="]), self.num(1), self.num(1))
 
     def body(self, depth):
@@ -360,7 +376,15 @@ class RefGen:
             return ("emitx", self.num(2))
         if k == "var":
             n = r.choice(["a", "b", "c", "i", "x", "y"])
-            e = self.num(2)
+            y = r.random()
+            if y < 0.12:
+                e = ("b", r.random() < 0.5)          # booleans equal to 0/1 but printed differently
+            elif y < 0.2:
+                e = r.choice([0, 1])
+            elif y < 0.26:
+                e = ("s", r.choice(["", "1", "0", "True"]))
+            else:
+                e = self.num(2)
             if n not in self.vars:
                 self.vars.append(n)
             return ("var", n, e)
